@@ -21,6 +21,7 @@ type c06Case struct {
 	Seq     []string `json:"msgs"`
 	Offered string   `json:"offered_nund"` // "" = no fee-denom coin
 	Extra   bool     `json:"extra_denom"`
+	Recheck bool     `json:"recheck"` // CheckTx in re-check mode (what the mempool runs after every commit)
 	tx      model.Tx
 	req     *big.Int
 }
@@ -167,7 +168,9 @@ func c06Cases(m *model.State, maxLen int) []c06Case {
 						if extra {
 							f[mc.Tok] = "1"
 						}
-						out = append(out, c06Case{Payer: p, Wrap: wrap, Seq: sq, Offered: off, Extra: extra, tx: model.Tx{Msgs: tmsgs, Fee: f}, req: req})
+						for _, re := range []bool{false, true} {
+							out = append(out, c06Case{Payer: p, Wrap: wrap, Seq: sq, Offered: off, Extra: extra, Recheck: re, tx: model.Tx{Msgs: tmsgs, Fee: f}, req: req})
+						}
 					}
 				}
 			}
@@ -191,6 +194,7 @@ func c06Extra(t Tier, ev *Evidence) []Violation {
 	if t == Thorough {
 		budget = 30 * time.Minute
 	}
+	budget = ScaleBudget(budget)
 	exhaustive := true
 	for _, sc := range bases {
 		nw := 16
@@ -239,7 +243,12 @@ func c06Extra(t Tier, ev *Evidence) []Violation {
 						fmt.Fprintf(os.Stderr, "HARNESS-ERROR C06 cannot sign %+v: %v\n", c, err)
 						os.Exit(2)
 					}
-					r := e.W.CheckTx(bz)
+					var r mc.TxRes
+					if c.Recheck {
+						r = e.W.ReCheckTx(bz)
+					} else {
+						r = e.W.CheckTx(bz)
+					}
 					results[ci] = res{r.Code, firstLine(r.Log)}
 					done[ci] = true
 					if r.Code == 0 {
@@ -262,7 +271,7 @@ func c06Extra(t Tier, ev *Evidence) []Violation {
 			r := results[ci]
 			payer := c.tx.Payer()
 			offered := c.tx.FeeOf(mc.Nund)
-			cls := fmt.Sprintf("%s|%s|%d|%s|%v", c.Wrap, strings.Join(c.Seq, "+"), offered.Cmp(c.req), c.Payer, c.Extra)
+			cls := fmt.Sprintf("%s|%s|%d|%s|%v|%v", c.Wrap, strings.Join(c.Seq, "+"), offered.Cmp(c.req), c.Payer, c.Extra, c.Recheck)
 			if !seenCls[cls] {
 				seenCls[cls] = true
 				distinct++
@@ -271,12 +280,16 @@ func c06Extra(t Tier, ev *Evidence) []Violation {
 			if c.Offered == "" {
 				rel = "absent"
 			}
+			mode := ""
+			if c.Recheck {
+				mode = "recheck/"
+			}
 			if r.code != 0 {
-				hist["rejected/"+c.Wrap+"/"+rel]++
+				hist[mode+"rejected/"+c.Wrap+"/"+rel]++
 				continue
 			}
 			admitted++
-			hist["admitted/"+c.Wrap+"/"+rel]++
+			hist[mode+"admitted/"+c.Wrap+"/"+rel]++
 			if len(samples) < 4 {
 				samples = append(samples, map[string]any{"scenario": sc.Name, "case": c, "required": c.req.String(), "code": r.code})
 			}
@@ -320,9 +333,9 @@ func c06Extra(t Tier, ev *Evidence) []Violation {
 			if offered.Cmp(c.req) == 0 {
 				kind = "fee.admitted_unaffordable"
 			}
-			d := Disc{Kind: kind, Detail: fmt.Sprintf("CheckTx admitted %s (payer %s, wrapping %s) offering %q nund (extra denom %v) while the parameterised fee is %s and the payer holds liquid %s / spendable %s / locked %s",
-				strings.Join(c.Seq, "+"), payer, c.Wrap, c.Offered, c.Extra, c.req, liquid, spend, locked),
-				Sig: map[string]string{"module_msgs_nested_in_MsgExec": nest, "both_modules_present": fmt.Sprint(hasW && hasB), "extra_denom_present": fmt.Sprint(c.Extra), "offered_vs_required": rel}}
+			d := Disc{Kind: kind, Detail: fmt.Sprintf("CheckTx (recheck mode: %v) admitted %s (payer %s, wrapping %s) offering %q nund (extra denom %v) while the parameterised fee is %s and the payer holds liquid %s / spendable %s / locked %s",
+				c.Recheck, strings.Join(c.Seq, "+"), payer, c.Wrap, c.Offered, c.Extra, c.req, liquid, spend, locked),
+				Sig: map[string]string{"module_msgs_nested_in_MsgExec": nest, "both_modules_present": fmt.Sprint(hasW && hasB), "extra_denom_present": fmt.Sprint(c.Extra), "offered_vs_required": rel, "checktx_mode": map[bool]string{false: "new", true: "recheck"}[c.Recheck]}}
 			v := Violation{Property: "C06", Scenario: sc.Name, Path: append(append([]string{}, sc.Prefix...), "CheckTx:"+txJSON(c.tx)), Disc: d}
 			k := d.Kind + fmt.Sprint(d.Sig)
 			if old, ok := bySig[k]; !ok || len(v.Path[len(v.Path)-1]) < len(old.Path[len(old.Path)-1]) {
@@ -348,7 +361,7 @@ func c06Extra(t Tier, ev *Evidence) []Violation {
 	ev.Coverage["admitted"] = admitted
 	ev.Coverage["outcomes"] = hist
 	ev.Coverage["exhaustive"] = exhaustive
-	ev.Coverage["rule"] = fmt.Sprintf("from %d base states (three payer classes: rich, liquid<fee<=liquid+locked, poor; three fee-parameter sets incl. one changed by governance): all message sequences of length <= %d over %v x wrapping {top, all nested in MsgExec, first nested} x offered {absent, required-1, required, required+1} x extra denom {no, yes}; one real CheckTx each; distinct = distinct (wrapping, sequence, offered-vs-required, payer, extra) classes", len(bases), maxLen, c06Alphabet)
+	ev.Coverage["rule"] = fmt.Sprintf("from %d base states (three payer classes: rich, liquid<fee<=liquid+locked, poor; three fee-parameter sets incl. one changed by governance): all message sequences of length <= %d over %v x wrapping {top, all nested in MsgExec, first nested} x offered {absent, required-1, required, required+1} x extra denom {no, yes} x CheckTx mode {new, recheck}; one real CheckTx each; distinct = distinct (wrapping, sequence, offered-vs-required, payer, extra) classes", len(bases), maxLen, c06Alphabet)
 	ev.Coverage["samples"] = samples
 	if admitted == 0 {
 		fmt.Fprintln(os.Stderr, "WARNING C06: no transaction was admitted at all; the one-sided oracle is vacuous on this tree")
